@@ -140,6 +140,13 @@ namespace
         return run_built(b, h, cfg);
     }
 
+    std::vector<std::string> split_colon(const std::string &s)
+    {
+        std::vector<std::string> out; std::string cur;
+        for (char ch : s) { if (ch == ':') { out.push_back(cur); cur.clear(); } else cur += ch; }
+        out.push_back(cur);
+        return out;
+    }
     History make_history(int cycles, const std::vector<unsigned> &masks)
     {
         History h; h.cycles = cycles; h.tick = masks; h.bval.assign(masks.size(), 0u);
@@ -215,6 +222,62 @@ namespace
         for (int a : {-1, -2}) { Stmt s; s.kind = ARG; s.in[0] = a; cur.push_back(s); gen_bodies(n, cur, emit); cur.pop_back(); }
     }
 
+    // ---- the same sub-graph inside a graph that is CREATED LATE (a switch_ branch selected in a later cycle): nested vs inlined -------
+    // When the branch starts, its boundary inputs may already hold values; the nested child must be sampled exactly like the inlined nodes.
+    struct KeyAt
+    {
+        static constexpr auto name = "c09_key_at";
+        static void start(NodeScheduler sched, Scalar<"cycle", Int> cycle) { sched.schedule(MIN_ST + TimeDelta{run_origin() + cycle.value()}); }
+        static void eval(Scalar<"cycle", Int>, Out<TS<Int>> out) { out.set(Int{1}); }
+    };
+    std::vector<std::pair<long, long>> *g_late_log = nullptr;
+    struct LateLog { static constexpr auto name = "c09_late_log"; static void eval(In<"x", TS<Int>> x, DateTime now) { if (g_late_log) g_late_log->emplace_back(rel(now), static_cast<long>(x.value())); } };
+    struct BrNested { static constexpr auto name = "c09_br_nested"; static Port<TS<Int>> compose(Wiring &w, Port<TS<Int>> a, Port<TS<Int>> b) { return nested_<GxSub>(w, a, b, Int{0}, Int{300}); } };
+    struct BrInline { static constexpr auto name = "c09_br_inline"; static Port<TS<Int>> compose(Wiring &w, Port<TS<Int>> a, Port<TS<Int>> b) { return wire<GxSub>(w, a, b, Int{0}, Int{300}); } };
+
+    // desc: "c09w:<body text>#<cycles>:<m0>,<m1>:<activation cycle>"
+    std::optional<std::string> run_late(const std::string &desc, std::string *sig = nullptr)
+    {
+        const std::string rest = desc.substr(5);
+        const auto h = rest.find('#');
+        const std::string body = rest.substr(0, h);
+        const auto parts = split_colon(rest.substr(h + 1));
+        const int cycles = std::stoi(parts.at(0));
+        const auto comma = parts.at(1).find(',');
+        const unsigned m0 = static_cast<unsigned>(std::stoul(parts.at(1).substr(0, comma))), m1 = static_cast<unsigned>(std::stoul(parts.at(1).substr(comma + 1)));
+        const long act = std::stol(parts.at(2));
+        install_bodies(body);
+        usrc_masks()[0] = m0; usrc_masks()[1] = m1;
+        std::vector<std::pair<long, long>> logs[2];
+        std::string excs[2];
+        for (int variant = 0; variant < 2; ++variant)
+        {
+            g_late_log = &logs[variant];
+            try
+            {
+                Wiring w;
+                auto s0 = wire<NUSrc>(w, Int{0});
+                auto s1 = wire<NUSrc>(w, Int{1});
+                stdlib::SwitchCases cases;
+                cases.cases.push_back({Value{Int{1}}, variant == 0 ? fn<BrInline>() : fn<BrNested>()});
+                auto o = wire<stdlib::switch_>(w, wire<KeyAt>(w, Int{act}), cases, s0, s1).template as<TS<Int>>();
+                wire<LateLog>(w, o);
+                GraphBuilder gb = std::move(w).finish();
+                GraphExecutorBuilder eb;
+                eb.graph_builder(std::move(gb)).start_time(MIN_ST).end_time(MIN_ST + TimeDelta{cycles + 12});
+                auto ex = eb.make_executor();
+                ex.view().run();
+            }
+            catch (const std::exception &e) { excs[variant] = e.what(); }
+            g_late_log = nullptr;
+        }
+        auto show = [](const std::vector<std::pair<long, long>> &v) { std::string o; for (auto &[t, x] : v) o += " t" + std::to_string(t) + "=" + std::to_string(x); return o.empty() ? std::string{" (none)"} : o; };
+        if (sig) *sig = show(logs[0]);
+        if (excs[0] != excs[1]) return "inlined and nested variants fail differently: inlined '" + excs[0] + "' nested '" + excs[1] + "'";
+        if (logs[0] != logs[1]) return "inside a branch selected in cycle " + std::to_string(act) + " the nested sub-graph gives" + show(logs[1]) + " but the inlined one gives" + show(logs[0]);
+        return std::nullopt;
+    }
+
     void c09_enumerate(verif::Ctx &ctx)
     {
         const bool th = ctx.thorough();
@@ -268,6 +331,31 @@ namespace
             });
         }
         ctx.counters["bodies"] = nbodies;
+        // late-created enclosing graph: bodies of <= 2 statements (3 thorough) x every input history x activation cycle 0..2
+        for (int n = 1; n <= (th ? 3 : 2); ++n)
+        {
+            std::vector<Stmt> cur;
+            gen_bodies(n, cur, [&](const std::vector<Stmt> &st) {
+                if (!ctx.next_is_mine()) return;
+                Program body; body.st = st;
+                const std::string btxt = to_text(body);
+                for (unsigned m0 = 0; m0 < per; ++m0)
+                    for (unsigned m1 = 0; m1 < per; ++m1)
+                        for (long act = 0; act <= 2; ++act)
+                        {
+                            std::ostringstream d;
+                            d << "c09w:" << btxt << "#" << cycles << ":" << m0 << "," << m1 << ":" << act;
+                            const std::string desc = d.str();
+                            ctx.evaluations += 2; ctx.traces += 2;
+                            std::string sig2;
+                            auto v = run_late(desc, &sig2);
+                            ctx.state("late|" + sig2);
+                            if (act > 0 && (m0 | m1) != 0) ctx.nontriv(desc);
+                            ctx.count("late_created_cases");
+                            if (v) ctx.violation(desc, *v, "c09 late-created graph: nested differs from inlined");
+                        }
+            });
+        }
     }
 
     // ------------------------------------------------------------------------------------------------------ c02
@@ -394,6 +482,7 @@ void verif_init() { stdlib::register_standard_operators(); }
 
 std::optional<std::string> verif_run_case(verif::Ctx &, const std::string &desc)
 {
+    if (desc.rfind("c09w:", 0) == 0) return run_late(desc);
     if (desc.rfind("c09:", 0) == 0)
     {
         C09Case c = parse_c09(desc);
